@@ -6,7 +6,8 @@ Driver lines (family lscr):
   lscr consts <lscr>           every constant of a script through parse_lrcr_file_header + parse_lrcr_crb: [[name, lingo, js], …]
   lscr cfloat <10 bytes>       unpack_float80
   lscr lingo|js <lscr> <lnam>  whole-script path (the literal is read off the `put` line)
-  lscr evallingo|evaljs|evalint|evaldec <utf-8 text>   the spec-side readers (Lean: Drx/Lscr/LitEval.lean)
+  lscr evallingo|evallingo2|evaljs|evalint|evaldec <utf-8 text>   the spec-side readers (Lean: Drx/Lscr/LitEval.lean; evallingo2 = the
+                               recursive-descent twin of the Lingo scanner)
   lscr lingosafe <bytes>       the decidable domain of theorem lingo_string_partial
 D: the literal texts produced by the REAL code are evaluated with Python mirrors of the Lean readers (the mirrors are tied to
 the Lean readers by the `eval*` lines, stage C) and compared with the value encoded in the constant.
@@ -46,7 +47,43 @@ def _ident(c):
     return ("0" <= c <= "9") or ("a" <= c <= "z") or ("A" <= c <= "Z") or c == "_"
 
 
+def _ident_start(c):
+    return ("a" <= c <= "z") or ("A" <= c <= "Z") or c == "_"
+
+
 def py_eval_lingo(s):
+    """mirror of Drx.Lscr.evalLingoLit (the scanner with escs = none)"""
+    named = dict(LINGO_NAMED)
+    q, acc, k, out = "T", "", 0, []
+    for c in s:
+        if q == "T":
+            if c == '"': q = "S"
+            elif _ident_start(c): q, acc = "N", c
+            else: return None
+        elif q == "S":
+            if c == '"': q, k = "A", 0
+            else: out.append(c)
+        elif q == "N":
+            if _ident(c): acc += c
+            elif c == " ":
+                if acc not in named: return None
+                out.append(named[acc]); q, k = "A", 1
+            else: return None
+        elif q == "A":
+            if (k, c) == (0, " "): k = 1
+            elif (k, c) == (1, "&"): k = 2
+            elif (k, c) == (2, " "): q = "T"
+            else: return None
+    if q == "A" and k == 0:
+        return "".join(out)
+    if q == "N" and acc in named:
+        return "".join(out) + named[acc]
+    return None
+
+
+def py_eval_lingo_rd(s):
+    """mirror of Drx.Lscr.evalLingoLitRD (recursive descent over terms)"""
+    named = dict(LINGO_NAMED)
     out = []
     i, fuel = 0, len(s) + 1
     while True:
@@ -59,11 +96,12 @@ def py_eval_lingo(s):
                 return None
             out.append(s[i + 1:j]); i = j + 1
         else:
-            for k, v in LINGO_NAMED:
-                if s.startswith(k, i) and not (i + len(k) < len(s) and _ident(s[i + len(k)])):
-                    out.append(v); i += len(k); break
-            else:
+            j = i
+            while j < len(s) and _ident(s[j]): j += 1
+            idn = s[i:j]
+            if idn == "" or not _ident_start(idn[0]) or idn not in named:
                 return None
+            out.append(named[idn]); i = j
         if i == len(s):
             return "".join(out)
         if s.startswith(" & ", i):
@@ -243,7 +281,7 @@ def rand_lingo_text(rng):
         elif r < 0.9:
             parts.append(rng.choice(["RETURN", "TAB", "QUOTE", "ENTER", "BACKSPACE", "EMPTY"]))
         else:
-            parts.append(rng.choice(["TABX", "return", "", "\"unterminated", "QUOTE_", "TAB1"]))
+            parts.append(rng.choice(["TABX", "return", "", "\"unterminated", "QUOTE_", "TAB1", "_TAB", "1TAB", "TAB ", " TAB", "EMPTY&", "Q"]))
     sep = " & " if rng.random() < 0.9 else rng.choice(["&", " &", " & & ", "  &  "])
     return sep.join(parts)
 
@@ -302,7 +340,9 @@ def cases(rng, tier):
     lines = []
     for _ in range(nev):
         r = rng.random()
-        if r < 0.4: lines.append("lscr evallingo " + hx(rand_lingo_text(rng).encode("utf-8")))
+        if r < 0.4:
+            t = hx(rand_lingo_text(rng).encode("utf-8"))
+            lines.append("lscr evallingo " + t); lines.append("lscr evallingo2 " + t)
         elif r < 0.8: lines.append("lscr evaljs " + hx(rand_js_text(rng).encode("utf-8")))
         elif r < 0.9: lines.append("lscr evalint " + hx(rng.choice(["0", "-0", "12", "-12", "007", "--1", "1-", "", "-", "+5", "1e3", "99999999999999999999"]).encode()))
         else: lines.append("lscr evaldec " + hx(rng.choice(["3.001", "-3.001", "1e+22", "1e-05", "1.5e-7", "70000.0", "0.0", "-0.0", "5e-324", "1.7976931348623157e+308", "inf", "nan", "1.", ".5", "1e", "1e+", "1.2.3", "12"]).encode()))
@@ -360,6 +400,8 @@ def impl(case):
                 out.append(canon(lingo_safe(B(t[2]))))
             elif cmd == "evallingo":
                 out.append(canon(py_eval_lingo(B(t[2]).decode("utf-8"))))
+            elif cmd == "evallingo2":
+                out.append(canon(py_eval_lingo_rd(B(t[2]).decode("utf-8"))))
             elif cmd == "evaljs":
                 out.append(canon(py_eval_js(B(t[2]).decode("utf-8"))))
             elif cmd == "evalint":
@@ -403,6 +445,8 @@ def _check_const(kind, val, triple, where=""):
     name, lg, js = triple
     if kind == "s":
         want = val.decode("mac_roman")
+        if py_eval_lingo(str(lg)) != py_eval_lingo_rd(str(lg)):
+            return f"readers{where}: the two Lingo readers disagree on {lg!r}"
         if py_eval_lingo(str(lg)) != want:
             return f"lingo{where}: string literal {lg!r} does not evaluate to the original string"
         if py_eval_js(str(js)) != want:
@@ -434,6 +478,12 @@ def _put_literals(text, lang):
 
 def oracle(case, io):
     k = case["kind"]
+    if k == "readers":
+        for li in range(len(case["lines"]) - 1):
+            a, b = case["lines"][li].split(), case["lines"][li + 1].split()
+            if a[1] == "evallingo" and b[1] == "evallingo2" and a[2] == b[2] and io[li] != io[li + 1]:
+                return f"readers: scanner and recursive-descent reader of Lingo literals disagree on {bytes.fromhex(a[2]).decode('utf-8')!r}"
+        return None
     if k.startswith("string"):
         if io[0] == '"timeout"':
             return "lingo+js: the real code does not terminate on a string constant"
